@@ -131,7 +131,8 @@ CHECKS = {
                  dict(pkg="./pkg/downloader", files=["pkg/downloader/h_c19_resolve.go"], entries=["H19Download"], limits={"max_instrs": 20000000, "max_decisions": 3000},
                       optional_sites=["verify/never-does-not-fetch-provenance", "verify/always-fails-without-valid-provenance", "verify/if-possible-fails-on-invalid-provenance", "verify/later-fetches-but-does-not-check"]),
                  dict(pkg="./pkg/downloader", files=["pkg/downloader/h_c19_resolve.go", "pkg/downloader/h_c19_deps.go"], entries=["H19Deps"], limits={"max_instrs": 20000000, "max_decisions": 3000}),
-                 dict(pkg="./pkg/action", files=["pkg/action/h_c19_locate.go"], entries=["H19Locate"], limits={"max_instrs": 20000000, "max_decisions": 3000})],
+                 dict(pkg="./pkg/action", files=["pkg/action/h_c19_locate.go"], entries=["H19Locate"], limits={"max_instrs": 20000000, "max_decisions": 3000}),
+                 dict(pkg="./pkg/getter", files=["pkg/getter/h_c19_redirect.go"], entries=["H19Redirect"], limits={"max_instrs": 20000000, "max_decisions": 3000})],
         "bounds": {}, "assumptions": [],
     },
     "C20": {
